@@ -2246,7 +2246,7 @@ class Side:
         buffer.write(
             f'{ind}\t"id" "{self.id}"\n'
             f'{ind}\t"plane" "({self.planes[0]}) ({self.planes[1]}) ({self.planes[2]})"\n'
-            f'{ind}\t"material" "{self.mat}"\n'
+            f'{ind}\t"material" "{escape_text(self.mat)}"\n'
             f'{ind}\t"uaxis" "{self.uaxis}"\n'
             f'{ind}\t"vaxis" "{self.vaxis}"\n'
             f'{ind}\t"rotation" "{self.ham_rot:g}\"\n'
